@@ -43,6 +43,8 @@ def main():
             'function main() -> void { int x = 50; int n = 1; int limit = 2; int r = clamp(5, 3); echo(x); echo(n); echo(limit); echo(r); }\n', ['50', '1', '2', '3']),
            ('function f(int a) -> int { int t = a * 2; while (true) { { return t; } } return 0; }\n'
             'function main() -> void { int t = 9; int a = 4; int r = f(10); echo(t); echo(a); echo(r); }\n', ['9', '4', '20']),
+           ('function first(int lim) -> int { for (int i = 0; i < lim; i = i + 1) { if (i == 2) { return i; } } return 0; }\n'
+            'function main() -> void { int i = 77; int lim = 88; int r = first(5); echo(i); echo(lim); echo(r); for (int k = 0; k < 2; k = k + 1) { int i2 = k; } echo(i); }\n', ['77', '88', '2', '77']),
            ('class K { public constructor() -> K = default; public function g(int v) -> int { int w = v + 1; if (v > 0) { if (v > 1) { return w; } } return 0; } }\n'
             'function main() -> void { K k = new K(); int v = 100; int w = 200; int r = k.g(5); echo(v); echo(w); echo(r); }\n', ['100', '200', '6'])]
     for src, want in blk:
@@ -50,7 +52,7 @@ def main():
         got = [l.strip() for l in out.strip().split('\n') if l.strip()]
         if rc != 0 or got != want:
             fails += 1
-            print('FAIL label=exec.block.scope_closed_on_every_path program=%s detail=after a return from inside a nested block the caller sees the callee\'s variables: printed %s, expected %s' % (json.dumps(src), got, want))
+            print('FAIL label=%s program=%s detail=after a return from inside a nested block the caller sees the callee\'s variables: printed %s, expected %s' % ('exec.for.scope_closed_on_every_path' if 'for (' in src.split('function main')[0] else 'exec.block.scope_closed_on_every_path', json.dumps(src), got, want))
     # ---- which method runs for obj.m(...): the override of the receiver's dynamic class; super.m() the base version
     H3 = ('class Shape { public constructor() -> Shape = default; public virtual function name() -> string { return "Shape"; } public function describe() -> string { return "I am " + this.name(); } public function plain() -> string { return "plainShape"; } }\n'
           'class Circle extends Shape { public constructor() -> Circle = default; public override function name() -> string { return "Circle"; } public function viaSuper() -> string { return super.plain(); } }\n'
